@@ -57,7 +57,7 @@ const (
 	// V2 Abbreviated Countersignature
 	//
 	// Associated value of type COSE_Countersignature0
-	HeaderParameterCountersignature0V2 = 11
+	HeaderParameterCountersignature0V2 = 12
 	// An unordered bag of X.509 certificates
 	//
 	// Associated value of type COSE_X509
